@@ -221,10 +221,12 @@ pub fn profile_cfg(profile: &str, content: &mut Rng) -> RunCfg {
         "e2wait" | "e2wait-hostile" => {
             c.mode = "wait_payment".into();
             c.max_sets = 0;
-            let n = content.below(5) as usize;
+            // (now and then more parts than any small constant)
+            let n = if content.chance(1, 12) { 9 + content.below(8) as usize } else { content.below(5) as usize };
             c.pre_parts = (0..n).map(|_| *content.pick(&[0u8, 0, 0, 1, 2])).collect();
             pre_part_groups(&mut c, content);
-            c.f_part_fail = 450;
+            many_pending_parts(&mut c, content, n);
+            c.f_part_fail = if c.many_parts_fail { 900 } else { 450 };
             c.f_rpc_reorder = 800;
             c.f_rpc_delay = 300;
             c.log = false;
@@ -240,11 +242,12 @@ pub fn profile_cfg(profile: &str, content: &mut Rng) -> RunCfg {
             }
             c.mode = "pay".into();
             c.max_sets = 0;
-            let n = content.below(4) as usize;
+            let n = if content.chance(1, 12) { 9 + content.below(8) as usize } else { content.below(4) as usize };
             c.pre_parts = (0..n).map(|_| *content.pick(&[0u8, 0, 1, 1, 2])).collect();
             pre_part_groups(&mut c, content);
+            many_pending_parts(&mut c, content, n);
             c.f_pay_bad_outcome = 600;
-            c.f_part_fail = 450;
+            c.f_part_fail = if c.many_parts_fail { 900 } else { 450 };
             c.f_rpc_reorder = 800;
             c.f_rpc_delay = 300;
             c.log = false;
@@ -298,6 +301,20 @@ fn pre_part_groups(c: &mut RunCfg, content: &mut super::rng::Rng) {
         for p in c.pre_parts.iter_mut() {
             *p |= (content.below(ng as u64) as u8) << 4;
         }
+    }
+}
+
+/// Runs with nine or more parts: mostly all of them pending and most of them
+/// failing one after the other (a wait that covers only the first few parts
+/// then ends while the rest is still in flight).
+fn many_pending_parts(c: &mut RunCfg, content: &mut super::rng::Rng, n: usize) {
+    if n >= 9 && content.chance(2, 3) {
+        for p in c.pre_parts.iter_mut() {
+            *p &= 0xf0;
+        }
+    }
+    if n >= 9 && content.chance(1, 2) {
+        c.many_parts_fail = true;
     }
 }
 
